@@ -20,6 +20,10 @@ import signal
 from twisted.internet.selectreactor import SelectReactor
 
 TIE_EPS = 1e-7
+# after jumping to the next due call the clock is moved a little further, so that every call of
+# the same instant (whose relative order was fixed with TIE_EPS nudges) is due in the SAME
+# reactor iteration, exactly as calls with equal times are on a real reactor
+SLACK = 1e-5
 
 
 class WouldBlockForever(Exception):
@@ -43,7 +47,7 @@ class VReactor(SelectReactor):
 
     def rel(self):
         """Virtual time since arm()."""
-        return round(self._vnow - self._t0, 6)
+        return round(self._vnow - self._t0, 3)
 
     def arm(self, chooser, max_interrupts=0, ties=True):
         self.chooser = chooser
@@ -78,7 +82,7 @@ class VReactor(SelectReactor):
             # nothing scheduled, no I/O can happen: a real reactor would sleep forever
             self.blocked_forever = True
             raise WouldBlockForever("reactor has nothing to wait for")
-        self._vnow += timeout
+        self._vnow += timeout + (SLACK if timeout > 0 else 0.0)
 
     def callLater(self, delay, callable, *args, **kw):
         if self.chooser is not None and self.ties:
